@@ -195,9 +195,11 @@ def pollute(nxe, nye, dx=10.0, dy=15.0):
     z, prof = build_profiles("mostm_s", 4)
     q = 1e3 * (rng.standard_normal((nye, nxe)) + 2.0)
     dom = (nxe * dx, nye * dy)
-    for m in ((nxe + 2 * (nxe % 2 == 0) * 0 + 64, nye + 64), (4, 4) if (nxe % 2 == 0 and nye % 2 == 0) else (64, 64)):
-        try:
-            S(q, z * 1.3, prof, dom, [1, 3], modes=m, halo=0.0, precision="double", srf_bg_conc=7.0, meas_pt=(dx, 2 * dy))
-            S(q, z * 1.3, prof, dom, [1, 3], modes=m, halo=0.0, precision="double", footprint=True, meas_pt=(2 * dx, dy))
-        except Exception:
-            pass  # what is accepted is C11's business
+    for m in ((nxe + 64, nye + 64), (4, 4) if (nxe % 2 == 0 and nye % 2 == 0) else (64, 64)):
+        for lv, prec in (([1, 3], "double"), ([2], "double"), ([0, 2, 4], "double"), ([1, 2, 3, 4], "double"), ([1, 3], "single"), ([0, 2, 4], "single")):
+            # every level count / precision a case may use: work arrays are typically keyed by the spectrum's shape and dtype
+            try:
+                S(q, z * 1.3, prof, dom, lv, modes=m, halo=0.0, precision=prec, srf_bg_conc=7.0, meas_pt=(dx, 2 * dy))
+                S(q, z * 1.3, prof, dom, lv, modes=m, halo=0.0, precision=prec, footprint=True, meas_pt=(2 * dx, dy))
+            except Exception:
+                pass  # what is accepted is C11's business
